@@ -1,7 +1,7 @@
 SPECIFICATION Spec
 CONSTANTS
-  Shapes <- ShapesC39t
-  MaxBlocks = 2
+  Shapes <- ShapesC39
+  MaxBlocks = 1
   Paths <- AllPaths
   Muts <- Double
   PreKinds <- NoKinds
